@@ -187,6 +187,14 @@ def run(ctx) -> Result:
               "tasks_limit": rng.choice([1000, 1000, 4])}
         o = vtime.run(lambda loop, s=sc: scenario(s), budget=200_000_000)
         check(o, model, res, f"recurring-{seed}-{i}")
+    # the same on the Redis and RabbitMQ brokers (in-process fake servers)
+    for kind in ("redis", "rabbit"):
+        rng = Rng(seed, f"c06/{kind}")
+        sc = {"jobs": make_jobs(rng, 8 if deep else 5), "converter": "basic", "policy": {"kind": "const", "us": 100_000},
+              "horizon_s": 32.0, "tasks_limit": 1000, "broker": kind}
+        o = vtime.run(lambda loop, s=sc: scenario(s), budget=300_000_000)
+        check(o, model, res, f"recurring-{kind}-{seed}")
+        res.dist[f"broker:{kind}"] += len(sc["jobs"])
     return res
 
 
